@@ -330,6 +330,20 @@ def _norm(a):
     return {k: v for k, v in (a or {}).items() if v != 0}
 
 
+def _emit_extent(r, key, fn, n, a, f_, t_):
+    if f_ == {} and list(t_) == ["total_sectors()"] and t_["total_sectors()"] == 1:
+        r.add(key, fn.loc(n), True, "whole surface: (0, total_sectors())")
+    elif f_ == {"start_sector()": 1} and t_ == {"len()": 1}:
+        r.add(key, fn.loc(n), True, "(start_sector(), len())")
+    elif set(f_) | set(t_) <= {"start_sector()", "len()", "total_sectors()", ""}:
+        r.add(key, fn.loc(n), False, "the volume is created with first sector `%s` and extent `%s`; the "
+              "constructor takes (first sector, number of sectors), so the window reaches into the "
+              "following volume (or stops short)" % (show(a[2]), show(a[3])))
+    else:
+        r.undecided.append("%s: extent arguments `%s`, `%s` use accessors this rule does not know" %
+                           (fn.loc(n), show(a[2]), show(a[3])))
+
+
 def rule_volume_extent(prog, fixture=False):
     r = RuleResult("R-C17-3", "each Opus volume is created with its own start and its own length from the disc "
                    "catalogue (first = start_sector(), extent = len()), a single-volume disc with (0, total "
@@ -343,25 +357,36 @@ def rule_volume_extent(prog, fixture=False):
                 a = call_args(n)
                 if len(a) < 5:
                     continue
-                k += 1
-                first, total = _linacc(fn, a[2]), _linacc(fn, a[3])
-                key = "%s::%s::Volume#%d" % (fn.relfile(), fn.qn, k)
-                if first is None or total is None:
-                    r.undecided.append("%s: cannot express the extent arguments `%s`, `%s` as linear forms" %
-                                       (fn.loc(n), show(a[2]), show(a[3])))
-                    continue
-                f_, t_ = _norm(first), _norm(total)
-                if f_ == {} and list(t_) == ["total_sectors()"] and t_["total_sectors()"] == 1:
-                    r.add(key, fn.loc(n), True, "whole surface: (0, total_sectors())")
-                elif f_ == {"start_sector()": 1} and t_ == {"len()": 1}:
-                    r.add(key, fn.loc(n), True, "(start_sector(), len())")
-                elif set(f_) | set(t_) <= {"start_sector()", "len()", "total_sectors()", ""}:
-                    r.add(key, fn.loc(n), False, "the volume is created with first sector `%s` and extent `%s`; the "
-                          "constructor takes (first sector, number of sectors), so the window reaches into the "
-                          "following volume (or stops short)" % (show(a[2]), show(a[3])))
-                else:
-                    r.undecided.append("%s: extent arguments `%s`, `%s` use accessors this rule does not know" %
-                                       (fn.loc(n), show(a[2]), show(a[3])))
+                # the two extent values either stand here, or come as two fields of a record that is filled
+                # in elsewhere (every braced construction of that record is then an instance)
+                pairs = []
+                fa, ta = strip_all(a[2]), strip_all(a[3])
+                if fa is not None and ta is not None and fa.get("k") == "MemberExpr" and ta.get("k") == "MemberExpr" and \
+                        fa.get("dk") == "Field" and ta.get("dk") == "Field" and \
+                        (strip_all(fa["c"][0]) or {}).get("d") == (strip_all(ta["c"][0]) or {}).get("d"):
+                    base = strip_all(fa["c"][0])
+                    rt = notpl((base.get("ct") or base.get("t") or "").replace("const ", "").replace("&", "").strip())
+                    rec = [rc for q_, rc in prog.records.items() if notpl(q_).split("::")[-1] == rt.split("::")[-1]]
+                    if rec:
+                        names = [f_["n"] for f_ in rec[0]["fields"]]
+                        if fa.get("n") in names and ta.get("n") in names:
+                            fi, ti = names.index(fa["n"]), names.index(ta["n"])
+                            for g_ in prog.functions.values():
+                                for x in g_.walk():
+                                    if x.get("k") == "InitListExpr" and notpl((x.get("ct") or x.get("t") or "")).split("::")[-1] == rt.split("::")[-1] \
+                                            and len(x.get("c", [])) > max(fi, ti):
+                                        pairs.append((g_, x, x["c"][fi], x["c"][ti]))
+                if not pairs:
+                    pairs = [(fn, n, a[2], a[3])]
+                for (pf, pnode, pa, pb) in pairs:
+                    k += 1
+                    first, total = _linacc(pf, pa), _linacc(pf, pb)
+                    key = "%s::%s::Volume#%d" % (pf.relfile(), pf.qn, k)
+                    if first is None or total is None:
+                        r.undecided.append("%s: cannot express the extent arguments `%s`, `%s` as linear forms" %
+                                           (pf.loc(pnode), show(pa), show(pb)))
+                        continue
+                    _emit_extent(r, key, pf, pnode, [None, None, pa, pb], _norm(first), _norm(total))
     for fn in prog.functions.values():
         if fn.qn != "DFS::Volume::Volume":
             continue
